@@ -2,13 +2,16 @@
 """Run every confirmed seeded change against the check of the property it targets, several at a time.
 Each lane works on its own COPY of /repo (the change is applied to the copy with `git apply`, exactly as seed_run.py applies it to /repo),
 with a private build cache and output directory, so that /repo, /verif/evidence and /verif/.cache are not touched.
-Results: seeded/<id>/last_run.json and a summary on stdout. Usage: seed_matrix.py [--lanes N] [ID ...]"""
+Results: seeded/<id>/last_run.json and a summary on stdout. Usage: seed_matrix.py [--lanes N] [--tag T] [ID ...]   (--tag: private cache names, for a second run at the same time)"""
 import json, os, shutil, subprocess, sys, tempfile, threading, queue
 VERIF = os.path.dirname(os.path.dirname(os.path.abspath(__file__)))
 args = sys.argv[1:]
 lanes = 4
 if '--lanes' in args:
     i = args.index('--lanes'); lanes = int(args[i + 1]); del args[i:i + 2]
+tag = ''
+if '--tag' in args:
+    i = args.index('--tag'); tag = args[i + 1]; del args[i:i + 2]
 ids = args or sorted(os.listdir(os.path.join(VERIF, 'seeded')))
 q = queue.Queue()
 for s in ids: q.put(s)
@@ -19,7 +22,7 @@ def sh(cmd, env=None):
     return p.returncode, p.stdout
 def lane(k):
     base = tempfile.mkdtemp(prefix=f'seedlane{k}.', dir='/tmp')
-    cache = os.path.join('/tmp', f'seedlane-cache-{k}')       # kept between seeds of this lane, removed at the end
+    cache = os.path.join('/tmp', f'seedlane-cache-{tag}{k}')       # kept between seeds of this lane, removed at the end
     try:
         while True:
             try: sid = q.get_nowait()
